@@ -669,7 +669,7 @@ fn main() {
             }
             next_cpu = 0;
         }
-        let out = format!("{}/jbkmc-pipe-{}-{w}.json", if std::path::Path::new("/dev/shm").is_dir() { "/dev/shm" } else { "/var/tmp" }, std::process::id());
+        let out = format!("{}/jbkmc-pipe-{}-{w}.json", jbkmc::scratch_base(), std::process::id());
         let mut cmd = std::process::Command::new("taskset");
         cmd.arg("-c").arg(format!("{}-{}", next_cpu, next_cpu + need - 1)).arg(&exe).arg("c08").arg("--child").arg("--w").arg(w.to_string()).arg("--tier").arg(&args.tier).arg("--out").arg(&out);
         if let Some(r) = &args.replay {
